@@ -13,12 +13,12 @@ theorem buExecuteScheduled_stack2 (f : Nat) : ∀ (s : Sess), BFrames s [] → (
     PostS T [] s (fun s' _ => BFrames s' []) (buExecuteScheduled sem body f s) := by
   induction f with
   | zero =>
-    intro s h hT; unfold buExecuteScheduled; exact PostS.abort_here h hT (Quiet.refl _ _)
+    intro s h hT; unfold buExecuteScheduled; exact PostS.abort_here h hT (QuietB.refl _ _)
   | succ f ih =>
     intro s h hT
     unfold buExecuteScheduled
     split
-    · exact ⟨h, hT, Quiet.refl _ _⟩
+    · exact ⟨h, hT, QuietB.refl _ _⟩
     next n q hq =>
       have hwq := (h.wf.subQueue (fun _ hm => queuePop_rest_subset hq hm)).wf
       have fq : BFrames { s with queue := q } [] := h.of_same hwq rfl rfl rfl
@@ -28,10 +28,10 @@ theorem buExecuteScheduled_stack2 (f : Nat) : ∀ (s : Sess), BFrames s [] → (
       split
       next s2 a heq =>
         obtain ⟨hab, q2⟩ := key.abort heq
-        exact ⟨hab, (Quiet.of_step qq).trans q2⟩
+        exact ⟨hab, (QuietB.of_step qq).trans q2⟩
       next s2 o heq =>
         obtain ⟨⟨f2, _, _⟩, t2, q2⟩ := key.ok heq
-        exact PostS.chain ((Quiet.of_step qq).trans q2) (ih s2 f2 t2) fun _ _ hp => hp
+        exact PostS.chain ((QuietB.of_step qq).trans q2) (ih s2 f2 t2) fun _ _ hp => hp
 
 /-- The state in which `updateAffectedTasks` starts the queue loop. -/
 theorem SessOK.bframes_start {s : Sess} (h : SessOK s) :
@@ -44,19 +44,19 @@ theorem updateAffectedTasks_stack2 (f : Nat) (s : Sess) (h : SessOK s)
   unfold updateAffectedTasks; simp only []
   have f0 := h.bframes_start
   have q0 : QStep s (({ s with cur := none } : Sess).emit .buildStart) :=
-    ⟨Store.Le.refl _, Silent.of_events (evs := [.buildStart]) rfl (by simp [Ev.isExec])⟩
+    ⟨Store.Le.refl _, Silent.of_events (evs := [.buildStart]) rfl (by simp [Ev.isExecEv])⟩
   have t0 : T → BTrc (({ s with cur := none } : Sess).emit .buildStart) [] := fun hT' =>
     (bTrc_nil_iff.mpr (hT hT')).step (fun _ hn => nomatch hn) q0
   have key := buExecuteScheduled_stack2 sem body f _ f0 t0
   split
   next s2 a heq =>
     obtain ⟨hab, q2⟩ := key.abort heq
-    exact ⟨hab, (Quiet.of_step q0).trans q2⟩
+    exact ⟨hab, (QuietB.of_step q0).trans q2⟩
   next s2 heq =>
     obtain ⟨f2, t2, q2⟩ := key.ok heq
     have q3 : QStep s2 (s2.emit .buildEnd) := QStep.emit s2 rfl
     exact ⟨f2.emit .buildEnd, f2.btrc_step t2 q3,
-      ((Quiet.of_step q0).trans q2).trans (Quiet.of_step q3)⟩
+      ((QuietB.of_step q0).trans q2).trans (QuietB.of_step q3)⟩
 
 theorem scheduleAffectedBy_foldl (l : List Nat) : ∀ (s : Sess), SessOK s →
     SessOK (l.foldl (fun s r => scheduleAffectedBy sem s r) s) ∧
@@ -80,7 +80,7 @@ theorem bottomUpBuild_stack2 (f : Nat) (s : Sess) (h : SessOK s) (hT : T → Tra
     ⟨(h.wf.subQueue (fun _ hm => by cases hm)).wf, h.done.nrd, h.done.cons⟩
   have q0 : QStep s { s with queue := [] } := QStep.of_eq rfl rfl
   obtain ⟨h1, q1⟩ := scheduleAffectedBy_foldl sem changed _ h0
-  exact PostS.chain (Quiet.of_step (q0.trans q1))
+  exact PostS.chain (QuietB.of_step (q0.trans q1))
     (updateAffectedTasks_stack2 sem body f _ h1 (fun hT' => (hT hT').step (q0.trans q1)))
     fun _ _ hp => hp
 
